@@ -388,7 +388,9 @@ def check_case(case, rec):
             # divergence is uncaptured nondeterminism (infrastructure), not a violation
             again = observe(Ctx(cols), conv)
             if again["problems"] != obs["problems"] or again["outcome"] != obs["outcome"]:
-                raise RuntimeError(f"nondeterministic observation for {cols!r} / {conv}: {obs['problems']!r} vs {again['problems']!r}")
+                # depends on what ran before in this process (hidden state) or is nondeterministic:
+                # the harness re-executes every reported violation (case, then whole shard in a fresh process) and decides
+                rec.count("diverged_on_immediate_reexecution")
             one = {"cols": cols, "convs": [conv]}
             for clause, detail, cls in obs["problems"]:
                 rec.violation(conv, clause, one, detail, cls=cls)
